@@ -1,6 +1,7 @@
 package main
 
 import (
+	"math/big"
 	"fmt"
 	"go/types"
 	"strings"
@@ -99,6 +100,12 @@ var vfNames = map[string]bool{"vfInt": true, "vfPick": true, "vfU8": true, "vfU1
 func (in *Interp) isVFIntrinsic(n string) bool { return vfNames[n] }
 
 func (in *Interp) stdIntrinsic(fn *ssa.Function, name string, args []Value) (Value, bool) {
+	if strings.Contains(name, "reflect.") {
+		if v, ok := in.reflectIntrinsic(name, args); ok {
+			in.res.Intrinsics[name]++
+			return v, true
+		}
+	}
 	switch name {
 	case "log.Printf", "log.Println", "fmt.Println", "fmt.Printf":
 		return in.zero(fn.Signature.Results()), true
@@ -169,6 +176,37 @@ func (in *Interp) stdIntrinsic(fn *ssa.Function, name string, args []Value) (Val
 		return in.sprintf(args), true
 	case "strconv.Itoa":
 		return in.itoa(args[0].(*Term)), true
+	case "internal/bytealg.MakeNoZero":
+		n := args[0].(*Term)
+		return &SliceV{obj: &ArrObj{node: zeroArr(8), ew: 8}, off: IX(0), len: n, cap: n}, true
+	case "(*strings.Builder).String":
+		pv, _ := args[0].(*PtrV)
+		if pv == nil || pv.cell == nil {
+			in.goPanic("nil *strings.Builder")
+		}
+		so := pv.cell.v.(*StructObj)
+		st := fn.Signature.Recv().Type().(*types.Pointer).Elem().Underlying().(*types.Struct)
+		for k := 0; k < st.NumFields(); k++ {
+			if st.Field(k).Name() == "buf" {
+				sl, _ := so.f[k].v.(*SliceV)
+				if sl == nil || sl.obj == nil {
+					return litStr(""), true
+				}
+				return &StrV{node: sl.obj.node, off: sl.off, len: sl.len}, true
+			}
+		}
+		in.unsupported("strings.Builder layout")
+	case "internal/abi.NoEscape":
+		return args[0], true
+	case "internal/stringslite.Clone", "strings.Clone":
+		return args[0], true
+	case "strconv.ParseInt":
+		base, ok1 := constInt(args[1].(*Term))
+		bits, ok2 := constInt(args[2].(*Term))
+		if !ok1 || !ok2 || base != 10 || bits != 64 {
+			in.unsupported("strconv.ParseInt with base/bitSize other than 10/64")
+		}
+		return in.atoi(args[0].(*StrV)), true
 	case "strconv.Atoi":
 		return in.atoi(args[0].(*StrV)), true
 	case "context.Background", "context.TODO":
@@ -280,15 +318,43 @@ func (in *Interp) sprintf(args []Value) Value {
 		verb := f[i]
 		iv, _ := (*va.cells)[va.off+ai].v.(*IfaceV)
 		ai++
-		if iv == nil || (verb != 's' && verb != 'd' && verb != 'v') {
+		if iv == nil || (verb != 's' && verb != 'd' && verb != 'v' && verb != 'q') {
+			return litStr("<" + f + ">")
+		}
+		if ov, isRef := iv.val.(*OpaqueV); isRef && ov.ref != nil {
+			// a reflect.Value prints as the value it holds
+			iv = &IfaceV{typ: ov.ref.typ, val: ov.ref.cell.v}
+		}
+		if _, isStr := iv.val.(*StrV); (verb == 'q') != isStr && verb == 'q' {
 			return litStr("<" + f + ">")
 		}
 		var piece *StrV
 		switch x := iv.val.(type) {
 		case *StrV:
 			piece = x
+			if verb == 'q' {
+				// strconv.Quote is the identity plus surrounding quotes on printable
+				// ASCII without '"' and '\\'; other text is outside the model
+				n := in.strLenConst(x, "Sprintf %q")
+				for k := 0; k < n; k++ {
+					b := x.at(k)
+					safe := AndN(Cmp("bvule", BV(8, 0x20), b), Cmp("bvult", b, BV(8, 0x7F)), Not(Eq(b, BV(8, '"'))), Not(Eq(b, BV(8, '\\'))))
+					if !in.branch(safe) {
+						in.unsupported("%%q of a string with bytes outside printable ASCII minus quote and backslash")
+					}
+				}
+				piece = in.strConcat(in.strConcat(litStr("\""), x), litStr("\""))
+			}
 		case *Term:
 			b, isB := iv.typ.Underlying().(*types.Basic)
+			if isB && b.Info()&types.IsBoolean != 0 && verb == 'v' {
+				if in.branch(x) {
+					piece = litStr("true")
+				} else {
+					piece = litStr("false")
+				}
+				break
+			}
 			if !isB || b.Info()&types.IsInteger == 0 || verb == 's' {
 				return litStr("<" + f + ">")
 			}
@@ -345,18 +411,27 @@ func (in *Interp) itoa(t *Term) *StrV {
 		return litStr(t.c.String())
 	}
 	if !in.branch(ICmp("<=", IntC(0), t)) {
-		in.unsupported("itoa of negative symbolic value")
+		return in.strConcat(litStr("-"), in.itoa(IArith("-", IntC(0), t)))
 	}
 	pow := int64(10)
 	for nd := 1; nd <= 7; nd++ {
 		if in.branch(ICmp("<", t, IntC(pow))) {
+			// the digits are fresh variables tied to t by the (unique) positional
+			// decomposition - linear for the solver, unlike div/mod chains; atoi
+			// recognises the digit bytes again through digitTags
 			node := zeroArr(8)
 			p := pow / 10
+			sum := IntC(0)
 			for i := 0; i < nd; i++ {
-				d := IArith("mod", IArith("div", t, IntC(p)), IntC(10))
-				node = node.Store(IX(int64(i)), Int2BV(IArith("+", d, IntC('0')), 8))
+				in.fresh++
+				d := IntVarR(fmt.Sprintf("digit!%d", in.fresh), big.NewInt(0), big.NewInt(9))
+				b := Int2BV(IArith("+", d, IntC('0')), 8)
+				in.digitTags[b] = d
+				node = node.Store(IX(int64(i)), b)
+				sum = IArith("+", sum, IArith("*", d, IntC(p)))
 				p /= 10
 			}
+			in.assume(Eq(t, sum))
 			s := &StrV{node: node, off: IX(0), len: IX(int64(nd))}
 			in.itoaTags[s.node] = t
 			return s
@@ -403,10 +478,17 @@ func (in *Interp) atoi(s *StrV) Value {
 	for i := 0; i < n; i++ {
 		b := s.node.Read(Bin("bvadd", s.off, IX(int64(i))))
 		if i == 0 && n > 1 {
-			if b.IsConst() && (b.Uint() == '-' || b.Uint() == '+') {
-				neg = b.Uint() == '-'
+			if in.branch(Eq(b, BV(8, '-'))) {
+				neg = true
 				continue
 			}
+			if in.branch(Eq(b, BV(8, '+'))) {
+				continue
+			}
+		}
+		if d, ok := in.digitTags[b]; ok {
+			v = IArith("+", IArith("*", v, IntC(10)), d)
+			continue
 		}
 		isDigit := And(Cmp("bvule", BV(8, '0'), b), Cmp("bvule", b, BV(8, '9')))
 		if !in.branch(isDigit) {
